@@ -1,6 +1,6 @@
 SPECIFICATION Spec
 CONSTANTS
-  NCfg = 3
+  NCfg = 2
   FullFirst = TRUE
   Gen = TRUE
 INVARIANTS StoredWereRegistered ServerOnlyIf
